@@ -11,6 +11,7 @@ Tie:    G  throttle.py's two functions and three constants are translated on eve
 from __future__ import annotations
 
 import asyncio
+import os
 import re
 import sys
 import tempfile
@@ -265,6 +266,7 @@ def login_level(ctx):
             ctx.violation("login path verdicts differ from the reference throttle",
                           {"attempts (time,user,addr,password_ok)": cases[i][0], "observed": cases[i][1]})
         ctx.extra["login_level_sequences"] = len(cases)
+        password_changes(ctx, loop, pw, tmp)
         gate_level(ctx, loop)
     finally:
         th.time = saved_time
@@ -280,6 +282,71 @@ def login_level(ctx):
         import shutil
 
         shutil.rmtree(tmp, ignore_errors=True)
+
+
+def password_changes(ctx, loop, pw, tmp):
+    """the password file is rewritten by the external tool while the server runs: only the CURRENT password of an
+    account that is not disabled authenticates (IMAP LOGIN and POP3 PASS), for accounts the server has already loaded
+    as for new ones"""
+    import asimap.throttle as th
+    from asimap.client import PreAuthenticated
+    from asimap.hashers import make_password
+    from asimap.parse import IMAPClientCommand
+    import asimap.pop3_server as p3
+
+    def attempt(user, pwd, pop3):
+        th.BAD_USER_AUTHS.clear()
+        th.BAD_IP_AUTHS.clear()
+        fc = FakeClient("10.9.9.9")
+        if not pop3:
+            h = PreAuthenticated(fc)
+            cmd = IMAPClientCommand(f'a1 LOGIN {user} "{pwd}"')
+            cmd.parse()
+            loop.run_until_complete(h.command(cmd))
+            return h.state == "authenticated", fc.out
+        iface = p3.POP3SubprocessInterface(fc)
+        granted = []
+
+        async def fake_connect(u, granted=granted):
+            granted.append(u.username)
+
+        iface.get_and_connect_subprocess = fake_connect
+        loop.run_until_complete(iface.message(f"USER {user}".encode()))
+        loop.run_until_complete(iface.message(f"PASS {pwd}".encode()))
+        return bool(granted), fc.out
+
+    stamp = [int(os.path.getmtime(pw)) + 10]
+
+    def rewrite(entries):
+        pw.write_text("".join(f"{u}:{make_password(p)}:{tmp / u}\n" for u, p in entries))
+        stamp[0] += 10
+        os.utime(pw, (stamp[0], stamp[0]))
+
+    (tmp / "carol").mkdir(exist_ok=True)
+    steps = [
+        # (file contents or None to keep, [(user, password, must_authenticate)])
+        (None, [("alice", "secret", True), ("alice", "newsecret", False)]),
+        ([("alice", "newsecret"), ("bob", None)], [("alice", "secret", False), ("alice", "newsecret", True)]),
+        ([("alice", None), ("bob", "bobpw"), ("carol", "cpw")],
+         [("alice", "newsecret", False), ("alice", "secret", False), ("bob", "bobpw", True), ("carol", "cpw", True)]),
+        ([("bob", "bobpw2")], [("carol", "cpw", False), ("bob", "bobpw", False), ("bob", "bobpw2", True), ("alice", "newsecret", False)]),
+    ]
+    n = 0
+    for entries, probes in steps:
+        if entries is not None:
+            rewrite(entries)
+        for user, pwd, want in probes:
+            for pop3 in (False, True):
+                got, out = attempt(user, pwd, pop3)
+                n += 1
+                ctx.count({"password_file": entries, "user": user, "password": pwd, "pop3": pop3}, nontrivial=True)
+                if got != want:
+                    ctx.violation("after the password file was rewritten a login is decided by something other than the "
+                                  "account's current password",
+                                  {"password_file_now": [(u, "disabled" if p_ is None else p_) for u, p_ in (entries or [("alice", "secret"), ("bob", None)])],
+                                   "user": user, "password": pwd, "path": "POP3 USER/PASS" if pop3 else "IMAP LOGIN",
+                                   "authenticated": got, "must_authenticate": want, "reply": repr(out)[-300:]})
+    ctx.extra["password_change_probes"] = n
 
 
 EXAMPLES = {
